@@ -176,6 +176,12 @@ def run(ctx):
         ef = fields_used(prog, e)
         report.nontriv("eqhash:" + ty)
         report.sample({"type": ty, "hashed": sorted(hf), "compared": sorted(ef)})
+        # equality that normalises (case folding, trimming) needs a hash that normalises the same way
+        ne, nh = normalisers(prog, ctx.cg, e), normalisers(prog, ctx.cg, h)
+        if ne - nh:
+            viol(report, "C16-R2", e, "eq-normalises", "%s: equality compares through %s but the Hash impl hashes the raw bytes (normalisers "
+                 "in hash: %s): values that compare equal (differing only in what equality folds away) hash differently" % (
+                     ty, sorted(ne - nh), sorted(nh) or "none"), ",".join(sorted(ne - nh)))
         extra = hf - ef
         if extra:
             viol(report, "C16-R2", h, "hash-eq", "%s hashes %s, which equality ignores (compared: %s): equal values can hash differently" % (
@@ -191,6 +197,25 @@ def run(ctx):
             viol(report, "C16-R3", h, "unordered-hash", "%s: %s" % (ty, msg), sn)
     report.assumptions += ["std collection Clone/Eq/Hash impls are lawful", "derive(PartialEq, Hash) use the same field list"]
     return report.finish()
+
+
+NORMALISER = re.compile(r"::(eq_ignore_ascii_case|to_ascii_lowercase|to_ascii_uppercase|make_ascii_lowercase|make_ascii_uppercase|"
+                        r"to_lowercase|to_uppercase|trim|trim_start|trim_end|trim_matches|eq_ignore_case)$")
+
+
+def normalisers(prog, cg, b):
+    """normalising std calls made by an eq()/hash() body, its closures and the crate functions it reaches"""
+    out = set()
+    for bid in cg.reachable([b.id]):
+        bb = prog.bodies[bid]
+        if bb.crate != b.crate:
+            continue
+        for bi, t in mu.calls(bb, r"."):
+            m = NORMALISER.search(t["callee"]["def"]) if t["callee"] else None
+            if m:
+                n = m.group(1)
+                out.add("ascii case folding" if "ascii" in n else ("case folding" if "case" in n else "trimming"))
+    return out
 
 
 def fields_used(prog, b):
